@@ -78,8 +78,37 @@ def py_mod(a, b):
     return a - b * py_floordiv(a, b)
 
 
+_internal_cache = {}
+
+
+def _has_internal(t):
+    """does the term contain z3's internal partial sequence accessors (seq.nth_i / seq.nth_u)?
+    The simplifier introduces them; the seq solver then answers `unknown` and cvc5 cannot parse them."""
+    work = [t]
+    seen = set()
+    while work:
+        x = work.pop()
+        i = x.get_id()
+        if i in seen:
+            continue
+        seen.add(i)
+        if z3.is_app(x):
+            if x.decl().name().startswith("seq.nth_"):
+                return True
+            work.extend(x.children())
+        elif z3.is_quantifier(x):
+            work.append(x.body())
+    return False
+
+
 def simp(t):
-    return z3.simplify(t)
+    """simplify, but never return a term containing internal sequence accessors"""
+    s = z3.simplify(t)
+    if z3.is_true(s) or z3.is_false(s) or z3.is_int_value(s) or z3.is_string_value(s):
+        return s
+    if _has_internal(s):
+        return t
+    return s
 
 
 def is_true(t):
